@@ -96,6 +96,15 @@ def centres(yaw, empty_centre: bool):
     return yaw.AngularCoordinates(np.deg2rad(pts))
 
 
+class PrepareRefused(Exception):
+    """Creating the PRIOR catalog (three clean records, two centres, sequential) raised:
+    real-code evidence about creation itself, not a failure of the machinery."""
+
+    def __init__(self, error):
+        super().__init__(repr(error))
+        self.error = error
+
+
 def prepare_path(yaw, root: Path, pre: str) -> Path:
     root.mkdir(parents=True, exist_ok=True)
     path = root / "cache"
@@ -105,8 +114,11 @@ def prepare_path(yaw, root: Path, pre: str) -> Path:
         import pandas as pd
 
         old = pd.DataFrame(dict(ra=[10.0, 12.0, 10.1], dec=[0.0, 0.0, 0.1], w=[OLD_BASE + 1, OLD_BASE + 2, OLD_BASE + 3], z=[0.2, 0.3, 0.4]))
-        yaw.Catalog.from_dataframe(path, old, ra_name="ra", dec_name="dec", weight_name="w", redshift_name="z",
-                                   patch_centers=centres(yaw, False), max_workers=1)
+        try:
+            yaw.Catalog.from_dataframe(path, old, ra_name="ra", dec_name="dec", weight_name="w", redshift_name="z",
+                                       patch_centers=centres(yaw, False), max_workers=1)
+        except Exception as exc:  # noqa: BLE001
+            raise PrepareRefused(exc) from exc
     elif pre == "foreign":
         path.mkdir()
         (path / "keep.txt").write_text("user data, not a catalog\n")
